@@ -14,7 +14,7 @@ N5 count bookkeeping a function that adjusts `count` by one does so exactly once
 NOT decided: that reverse / sort / merge produce the right order (link-shape reasoning).
 """
 from .. import listrules
-from ..facts import Prover
+from ..facts import Prover, strip_bitcasts
 from ..ir import const_int, resolve_addr
 from .util import header_functions, floc
 
@@ -81,6 +81,41 @@ def run(m, rep, tier):
                          'a node that is no longer the last' % ', '.join(b.loc() for b in bad[:2]), floc(m, f), {})
         else:
             n2.ok(f.name, '%d link store(s), tail maintained' % len(ls), floc(m, f))
+
+    n6 = rep.rule('N6', 'the tail pointer is only ever set to the head link, another list\'s tail, or a node known to exist', floor=5)
+    for f in fns:
+        pv = Prover(f)
+        for s in tail_stores(f):
+            v = strip_bitcasts(f, s.o[0])
+            a = resolve_addr(f, v)
+            vi = f.get(v) if isinstance(v, str) else None
+            site = '%s:t@%d' % (f.name, s.line)
+            why = None
+            if a.steps in (('h',),) or (a.steps == () and a.coff == 0 and isinstance(a.root, str) and (a.root.startswith('$') or (f.get(a.root) is not None and f.get(a.root).op == 'alloca'))
+                                         and vi is not None and vi.op in ('getelementptr', 'bitcast')):
+                why = 'the list\'s own head link'
+            elif vi is not None and vi.op == 'load' and resolve_addr(f, vi.o[0]).fsteps[-1:] == ((SL, 't'),):
+                why = 'a tail pointer (never NULL by this very rule)'
+            elif pv.prove_at(('ne', v, 'null'), s):
+                why = 'proven non-NULL'
+            else:
+                # dereferenced on every path before
+                for i in f.all_insts():
+                    ptr = i.o[0] if i.op == 'load' else (i.o[1] if i.op == 'store' else None)
+                    if ptr is not None and resolve_addr(f, ptr).root == v and resolve_addr(f, ptr).steps and i is not s:
+                        if f.dominates(i, s):
+                            why = 'already dereferenced at %s' % i.loc()
+                            break
+                        if (i.block is s.block and i.pos > s.pos) or (i.block is not s.block and f.postdominates_block(i.block, s.block)):
+                            why = 'dereferenced unconditionally right after, at %s' % i.loc()
+                            break
+                if why is None and isinstance(v, str) and v.startswith('$'):
+                    why = 'a node handed in by the caller'
+            if why:
+                n6.ok(site, why, s.loc())
+            else:
+                n6.violation(site, 'the tail pointer is set at %s to a value that may be NULL (%s): on an empty list the tail must stay the head link, '
+                             'otherwise front/back report garbage and the next push_back dereferences NULL' % (s.loc(), f.vname(v)), s.loc(), {})
 
     n3 = rep.rule('N3', 'swap re-anchors the tail of an empty list to its own head link', floor=2)
     f = m.ifn('cstl_slist_swap')
